@@ -11,6 +11,8 @@ Cases == {[Blank EXCEPT !.kind = "dlog", !.blk = b, !.others = o, !.odd = d, !.r
          \cup {[Blank EXCEPT !.kind = "special", !.val = s] : s \in {"0", "1", "2", "4", "p-1", "p-2", "5", "h", "g", "g2"}}
          \cup {[Blank EXCEPT !.kind = k, !.n = (IF Tier = "quick" THEN 150 ELSE 10000), !.rep = r] : k \in {"random", "square", "point"}, r \in 1 .. Reps}
          \cup {[Blank EXCEPT !.kind = "yside", !.n = (IF Tier = "quick" THEN 40 ELSE 2000), !.rep = r] : r \in 1 .. Reps}
+         \* histories: a value, then a different value with the same limb xor / sum / one limb / limb multiset (canonical and stored words)
+         \cup {[Blank EXCEPT !.kind = "relatives", !.n = (IF Tier = "quick" THEN 6 ELSE 120), !.rep = r] : r \in 1 .. Reps}
          \cup {[Blank EXCEPT !.kind = "tables"]}
 VARIABLE done
 Init == done = FALSE
